@@ -61,6 +61,7 @@ class Contract(object):
         self.globals_ = {}           # module-global overrides for this function (name -> python value)
         self.locals_ = {}            # local name -> "<kind> => <type>" (typed model of a local object)
         self.uses_ = {}              # clause name -> callee clause names whose facts may be used
+        self.model_ = None           # python callable(interp, call_env) -> result: programmable ASSUMED behaviour of a callee
         self.init_fields_ = None     # for __init__ contracts: field -> type of the constructed object
         self.native_checks = []
 
@@ -174,6 +175,10 @@ class Contract(object):
 
     def local(self, **decls):
         self.locals_.update(decls)
+        return self
+
+    def model(self, fn):
+        self.model_ = fn
         return self
 
     def on_path(self, fn):
